@@ -91,8 +91,10 @@ RefIsEquiv == \A a \in RefTy, b \in RefTy : RefAccept(a, b, FALSE, FALSE) = Equi
 
 OpCases == {[kind |-> "op", op |-> op, a |-> a, b |-> b, r |-> Rule(op, a, b)] : op \in Ops, a \in Ty, b \in Ty}
 IfCases == {[kind |-> "if", op |-> "if", a |-> a, b |-> b, r |-> RuleIf(a, b)] : a \in Ty, b \in Ty}
+(* the statement: a variable (an lvalue) is accepted for a reference parameter exactly when the two types are equivalent *)
+RefSem(p, a) == Equivalent(a, p)
 RefCases == {[kind |-> "ref", op |-> "ref", a |-> a, b |-> b, pconst |-> pc, aconst |-> ac,
-              r |-> IF RefAccept(b, a, pc, ac) THEN "OK" ELSE "ERR"] :
+              r |-> IF RefAccept(b, a, pc, ac) THEN "OK" ELSE "ERR", sem |-> RefSem(b, a)] :
               a \in RefTy, b \in RefTy, pc \in BOOLEAN, ac \in BOOLEAN}
 Export(file) == ndJsonSerialize(file, SetToSeq(OpCases \cup IfCases) \o SetToSeq(RefCases))
 
